@@ -261,7 +261,7 @@ def run_arith(ctx, lcls, opn, tier, seed):
             for n in LENS:
                 valid = (lcls == rcls and m == n)
                 pre = 'C20/%s/%s.%s/m=%d/n=%d' % (opn, CODE[lcls], CODE[rcls], m, n)
-                P = {'lcls': lcls, 'rcls': rcls, 'op': opn, 'm': m, 'n': n}
+                P = {'lcls': lcls, 'rcls': rcls, 'op': opn, 'm': m, 'n': n, 'multi': int(m > 1 or n > 1)}
                 if not valid:
                     # mixed classes or unequal lengths: must be rejected, whatever the values
                     for xn, xv in REJ:
@@ -352,7 +352,7 @@ def run_neg(ctx, tier, seed):
     for cls in CLS:
         for n in LENS:
             pre = 'C20/neg/%s/n=%d' % (CODE[cls], n)
-            P = {'lcls': cls, 'rcls': '-', 'op': 'neg', 'm': n, 'n': n}
+            P = {'lcls': cls, 'rcls': '-', 'op': 'neg', 'm': n, 'n': n, 'multi': int(n > 1)}
             for k in DIL:
                 if n == 1:
                     letters = [('x=' + bstr(b), [k * np.array(b, dtype=float)]) for b in BITS6]
@@ -418,7 +418,7 @@ def run_cross(ctx, via, rcls, tier, seed):
             if not (m == n or m == 1 or n == 1):
                 continue        # no pairing defined by the statement
             pre = 'C20/%s/V.%s/m=%d/n=%d' % (via, CODE[rcls], m, n)
-            P = {'lcls': lcls, 'rcls': rcls, 'op': via, 'm': m, 'n': n}
+            P = {'lcls': lcls, 'rcls': rcls, 'op': via, 'm': m, 'n': n, 'multi': int(m > 1 or n > 1)}
             what = '%s(%d) %s %s(%d)' % (lcls, m, 'x' if via == 'cross' else '@', rcls, n)
             if m == 1 and n == 1:
                 for k in DIL:
@@ -779,7 +779,7 @@ def run_imul(ctx, xcls, tier, seed):
             if not ctx.want(cid):
                 continue
             ctx.case(cid, trivial=triv)
-            P = dict(P0, n=len(xs_), grid=grid, mag=max(amag, xmag), Imag=amag, xmag=xmag)
+            P = dict(P0, n=len(xs_), multi=int(len(xs_) > 1), grid=grid, mag=max(amag, xmag), Imag=amag, xmag=xmag)
             A, _ = mk_inertia(ctx, cid, am, ar, aJ, dict(P, op='ctor'), base_tol)
             x = build(ctx, cid, xcls, xs_, P)
             if A is None or x is None:
@@ -860,7 +860,7 @@ def run_rmul(ctx, cls, part, nparts, tier, seed):
             if not ctx.want(cid):
                 continue
             ctx.case(cid)
-            P = dict(P0, n=len(xs_), grid=grid, mag=xmag)
+            P = dict(P0, n=len(xs_), multi=int(len(xs_) > 1), grid=grid, mag=xmag)
             x = build(ctx, cid, cls, xs_, P)
             if x is None:
                 continue
